@@ -7,7 +7,6 @@ import (
 
 	"github.com/unixpickle/model3d/model2d"
 	"github.com/unixpickle/model3d/model3d"
-	"verif/vlib"
 	ref "verif/vlib/c07ref"
 )
 
@@ -36,7 +35,7 @@ func describeTri(t [3]V3) string {
 
 // checkMulti3 checks SegmentCollision, RectCollision and TriangleCollisions of
 // a triangle-based MultiCollider against brute force over the raw triangles.
-func checkMulti3(c *vlib.Case, s *subject3, n int) {
+func checkMulti3(c *kase, s *subject3, n int) {
 	mc, ok := s.coll.(model3d.MultiCollider)
 	if !ok {
 		c.Violation(s.api+"/is-multicollider", "collider built from triangles does not implement MultiCollider", nil)
@@ -213,7 +212,7 @@ func nearPoint2(rng *rand.Rand, m *ref.Segs2) V2 {
 	}
 }
 
-func checkMulti2(c *vlib.Case, s *subject2, n int) {
+func checkMulti2(c *kase, s *subject2, n int) {
 	mc, ok := s.coll.(model2d.MultiCollider)
 	if !ok {
 		c.Violation(s.api+"/is-multicollider", "collider built from segments does not implement MultiCollider", nil)
